@@ -1,3 +1,5 @@
+//go:build !js
+
 package checks
 
 import (
@@ -625,21 +627,6 @@ func c05Key(id, desc string) string {
 	return "hostile-input " + stripDigitsAfter(d) + " :: " + strings.SplitN(id, "/", 2)[0]
 }
 
-func stripDigitsAfter(s string) string {
-	var sb strings.Builder
-	for _, r := range s {
-		if r >= '0' && r <= '9' {
-			sb.WriteByte('N')
-		} else {
-			sb.WriteRune(r)
-		}
-	}
-	out := sb.String()
-	for strings.Contains(out, "NN") {
-		out = strings.ReplaceAll(out, "NN", "N")
-	}
-	return out
-}
 
 func init() {
 	fw.Register(&fw.Check{
@@ -747,18 +734,4 @@ func init() {
 	})
 }
 
-func tail(s string, n int) string {
-	if len(s) > n {
-		return s[len(s)-n:]
-	}
-	return s
-}
 
-func firstFatal(s string) string {
-	for _, l := range strings.Split(s, "\n") {
-		if strings.HasPrefix(l, "fatal error") || strings.HasPrefix(l, "panic") || strings.Contains(l, "signal") || strings.Contains(l, "out of memory") {
-			return l
-		}
-	}
-	return tail(s, 300)
-}
